@@ -75,8 +75,24 @@ func loadBaseline(prop string) map[string]bool {
 		return nil
 	}
 	for _, l := range strings.Split(string(data), "\n") {
-		if l = strings.TrimSpace(l); l != "" {
+		if l = strings.TrimSpace(l); l != "" && !strings.HasPrefix(l, "!") {
 			out[l] = true
+		}
+	}
+	return out
+}
+
+// loadBaselineUnknown: the calls to functions without a contract that each function of the recorded tree makes
+// (baseline lines "!uncontracted <function> <callee>").
+func loadBaselineUnknown(prop string) map[string]bool {
+	out := map[string]bool{}
+	data, err := os.ReadFile(filepath.Join(verifDir(), "baseline", prop+".txt"))
+	if err != nil {
+		return nil
+	}
+	for _, l := range strings.Split(string(data), "\n") {
+		if f := strings.Fields(l); len(f) >= 3 && f[0] == "!uncontracted" {
+			out[f[1]+" "+strings.Join(f[2:], " ")] = true
 		}
 	}
 	return out
@@ -466,6 +482,54 @@ func cmdCheck(args []string) int {
 		r.Obls = keep
 	}
 
+	// Second opinion for functions that now call something without a contract which the recorded tree did not call:
+	// the verifier havocs the whole heap at such a call, so every later obligation may fail for no reason in the
+	// code. The failing obligations of such a function are decided once more with the new unknown callees taken as
+	// free of effects; what is discharged then depends on nothing but the unknown effects and is reported as
+	// undecided (the callee needs a contract), what still fails is a violation in its own right.
+	needsContract := map[string]string{}
+	if bu := loadBaselineUnknown(prop); bu != nil && !*writeBaseline {
+		for _, r := range results {
+			var fresh []string
+			for _, u := range r.Used {
+				if strings.HasPrefix(u, "uncontracted:") {
+					if c := strings.TrimPrefix(u, "uncontracted:"); !bu[r.ID+" "+c] {
+						fresh = append(fresh, c)
+					}
+				}
+			}
+			failing := map[string]bool{}
+			for _, o := range r.Obls {
+				if o.Kind != "cover" && !o.OK() && !knownIDs[o.ID] && o.Result.Solver != "trivial" {
+					failing[o.ID] = true
+				}
+			}
+			if len(fresh) == 0 || len(failing) == 0 {
+				continue
+			}
+			sort.Strings(fresh)
+			p.optimistic = map[string]bool{}
+			for _, c := range fresh {
+				p.optimistic[c] = true
+			}
+			r2 := p.VerifyFunction(r.ID)
+			p.optimistic = nil
+			var keep []*Obligation
+			for _, o := range r2.Obls {
+				if failing[o.ID] {
+					keep = append(keep, o)
+				}
+			}
+			r2.Obls = keep
+			SolveAll([]*FuncResult{r2}, SolveOptions{Timeout: timeout, Both: both, OutDir: out, Workers: 5, Known: knownIDs})
+			for _, o := range r2.Obls {
+				if o.OK() {
+					needsContract[o.ID] = strings.Join(fresh, ", ")
+				}
+			}
+		}
+	}
+
 	// A known finding is identified by its exact obligation id. Harmless edits renumber returns and back edges;
 	// so that they do not turn a recorded defect into an alarm, a failing obligation of the same clause of the same
 	// function also counts as that finding as long as the clause does not fail on more paths than are recorded.
@@ -582,6 +646,12 @@ func cmdCheck(args []string) int {
 				notClaimed = append(notClaimed, o.ID)
 				continue
 			}
+			if nc, ok := needsContract[o.ID]; ok {
+				fmt.Printf("UNDECIDED: property=%s %s (%s only because of the unknown effects of %s, which this function did not call in the recorded tree and which has no contract: discharged when the callee is taken as free of effects)\n", prop, o.ID, o.Result.Status, nc)
+				undecided = append(undecided, o.ID+" (depends on the unknown effects of "+nc+")")
+				nUndec++
+				continue
+			}
 			if o.Result.Status == "skipped" {
 				fmt.Printf("UNDECIDED: property=%s %s (%s)\n", prop, o.ID, o.Result.Output)
 				undecided = append(undecided, o.ID+" (not attempted)")
@@ -681,9 +751,19 @@ func cmdCheck(args []string) int {
 			}
 		}
 		sort.Strings(ids)
+		var unk []string
+		for _, r := range results {
+			for _, u := range r.Used {
+				if strings.HasPrefix(u, "uncontracted:") {
+					unk = append(unk, "!uncontracted "+r.ID+" "+strings.TrimPrefix(u, "uncontracted:"))
+				}
+			}
+		}
+		sort.Strings(unk)
+		ids = append(ids, unk...)
 		os.MkdirAll(filepath.Join(verifDir(), "baseline"), 0o755)
 		os.WriteFile(filepath.Join(verifDir(), "baseline", prop+".txt"), []byte(strings.Join(ids, "\n")+"\n"), 0o644)
-		fmt.Printf("baseline written: %d obligations\n", len(ids))
+		fmt.Printf("baseline written: %d obligations, %d calls without contract\n", len(ids)-len(unk), len(unk))
 	}
 	// evidence
 	level := "proof"
